@@ -53,6 +53,9 @@ type Stream struct {
 	logW     atomic.Bool
 	// shortWrite: if > 0, Write accepts at most this many octets and returns an error.
 	shortWrite int
+	// OnSetReadDeadline, if set (before the connection is used), is called at the start of
+	// every SetReadDeadline: a scenario may block in it to pause the caller at that point.
+	OnSetReadDeadline func(t time.Time)
 }
 
 // StreamPair returns the two ends of a stream.
@@ -215,6 +218,9 @@ func (s *Stream) SetDeadline(t time.Time) error {
 }
 
 func (s *Stream) SetReadDeadline(t time.Time) error {
+	if f := s.OnSetReadDeadline; f != nil {
+		f(t)
+	}
 	h := s.rd
 	h.mu.Lock()
 	h.deadline = t
@@ -246,8 +252,11 @@ type Listener struct {
 	mu     sync.Mutex
 	cond   *sync.Cond
 	queue  []*Stream
-	closed bool
-	all    []*Stream
+	closed   bool
+	all      []*Stream
+	accepted []*Stream
+	// Prepare, if set, is applied to every server-side stream before it can be accepted.
+	Prepare func(server *Stream)
 }
 
 // NewListener returns a simulated listener.
@@ -260,6 +269,9 @@ func NewListener() *Listener {
 // Dial creates a connection; the server end becomes available to Accept.
 func (l *Listener) Dial() (*Stream, error) {
 	c, s := StreamPair()
+	if l.Prepare != nil {
+		l.Prepare(s)
+	}
 	l.mu.Lock()
 	defer l.mu.Unlock()
 	if l.closed {
@@ -281,6 +293,7 @@ func (l *Listener) Accept() (net.Conn, error) {
 		if len(l.queue) > 0 {
 			s := l.queue[0]
 			l.queue = l.queue[1:]
+			l.accepted = append(l.accepted, s)
 			return s, nil
 		}
 		l.cond.Wait()
@@ -296,6 +309,13 @@ func (l *Listener) Close() error {
 }
 
 func (l *Listener) Addr() net.Addr { return Addr("listener") }
+
+// Accepted returns the server-side connections that were returned by Accept.
+func (l *Listener) Accepted() []*Stream {
+	l.mu.Lock()
+	defer l.mu.Unlock()
+	return append([]*Stream(nil), l.accepted...)
+}
 
 // ServerConns returns every server-side connection ever created (accepted or still queued).
 func (l *Listener) ServerConns() []*Stream {
@@ -321,6 +341,8 @@ type PacketConn struct {
 	deadline time.Time
 	timer    *time.Timer
 	closes   int
+	// OnSetReadDeadline: see Stream.OnSetReadDeadline.
+	OnSetReadDeadline func(t time.Time)
 }
 
 // NewPacketConn returns a simulated datagram socket.
@@ -414,6 +436,9 @@ func (p *PacketConn) SetDeadline(t time.Time) error {
 	return p.SetReadDeadline(t)
 }
 func (p *PacketConn) SetReadDeadline(t time.Time) error {
+	if f := p.OnSetReadDeadline; f != nil {
+		f(t)
+	}
 	p.mu.Lock()
 	p.deadline = t
 	if p.timer != nil {
